@@ -4,6 +4,7 @@
 package txn
 
 import (
+	"encoding/json"
 	"fmt"
 	"os"
 	"runtime/debug"
@@ -15,6 +16,7 @@ import (
 	"github.com/ovn-org/libovsdb/database/inmemory"
 	"github.com/ovn-org/libovsdb/model"
 	"github.com/ovn-org/libovsdb/ovsdb"
+	"github.com/ovn-org/libovsdb/server"
 	"verifharness/internal/dyn"
 	"verifharness/internal/ref"
 )
@@ -22,14 +24,19 @@ import (
 type Engine struct {
 	M  *dyn.Model
 	DB database.Database
+	// Srv is the library server owning DB (never listening). Committing
+	// transactions go through its real Transact handler, so the server's own
+	// decision "commit iff no result carries an error" is what is exercised.
+	Srv *server.OvsdbServer
 }
 
 func New(m *dyn.Model) (*Engine, error) {
 	db := inmemory.NewDatabase(map[string]model.ClientDBModel{m.S.Name: m.Client})
-	if err := db.CreateDatabase(m.S.Name, m.Ovs); err != nil {
+	srv, err := server.NewOvsdbServer(db, m.DB)
+	if err != nil {
 		return nil, err
 	}
-	return &Engine{M: m, DB: db}, nil
+	return &Engine{M: m, DB: db, Srv: srv}, nil
 }
 
 // Reply is the library's answer to one transaction.
@@ -77,6 +84,8 @@ func (e *Engine) TransactWire(wire []ovsdb.Operation, commit bool) *Reply {
 		panicv  interface{}
 	}
 	ch := make(chan ret, 1)
+	viaServer := commit && e.Srv != nil
+	var srvErr error
 	go func() {
 		var r ret
 		defer func() {
@@ -86,6 +95,19 @@ func (e *Engine) TransactWire(wire []ovsdb.Operation, commit bool) *Reply {
 			}
 			ch <- r
 		}()
+		if viaServer {
+			name, _ := json.Marshal(e.M.S.Name)
+			args := []json.RawMessage{name}
+			for i := range wire {
+				b, err := json.Marshal(wire[i])
+				if err != nil {
+					panic(err)
+				}
+				args = append(args, b)
+			}
+			srvErr = e.Srv.Transact(nil, args, &r.results)
+			return
+		}
 		r.results, r.update = t.Transact(wire...)
 	}()
 	var results []*ovsdb.OperationResult
@@ -114,6 +136,16 @@ func (e *Engine) TransactWire(wire []ovsdb.Operation, commit bool) *Reply {
 			rep.FailErr = r.Error
 			rep.FailWhy = r.Details
 		}
+	}
+	if viaServer {
+		if !rep.Failed {
+			if srvErr != nil {
+				rep.CommitErr = srvErr
+			} else {
+				rep.Committed = true
+			}
+		}
+		return rep
 	}
 	if !rep.Failed && commit {
 		if err := e.DB.Commit(e.M.S.Name, uuid.New(), update); err != nil {
